@@ -185,6 +185,24 @@ for i in range(120 * SCALE):
         r = vlib.run_impl(request_from_xml, doc)
         if r[0] != "ok" or r[1] != base:
             violation("layout", f"request differs from the canonical rendering's ({r[2] if r[0] != 'ok' else 'unequal'})", doc)
+    # timestamps in each UTC notation, read by a process in another time zone: the instants are the document's (what ElementTree + fromisoformat give)
+    if i % 4 == 1:
+        tz_, sfx_ = [("JST-9", ""), ("PST8", "Z"), ("IST-5:30", ""), ("PST8", "+00:00"), ("UTC", ""), ("JST-9", "Z")][(i // 4) % 6]
+        with ksrxml.process_zone(tz_, sfx_):
+            zdoc = ksrxml.render_tree(ksrxml.ksr_tree(req), R)
+            rz = vlib.run_impl(request_from_xml, zdoc)
+        count("time-zone")
+        n_docs += 1
+        if rz[0] != "ok":
+            violation("time-zone", f"a KSR with timestamps written ...{sfx_!r} is refused ({rz[2]}) when the process runs with TZ={tz_}", zdoc)
+        else:
+            got_t = {b.id: (b.inception, b.expiration, sorted((s_.key_identifier, s_.signature_inception, s_.signature_expiration) for s_ in b.signatures)) for b in rz[1].bundles}
+            want_t = {b["id"]: (b["inc"], b["exp"], sorted((s_["id"], s_["inc"], s_["exp"]) for s_ in b["sigs"])) for b in req["bundles"]}
+            if got_t != want_t or rz[1].timestamp != req.get("timestamp"):
+                bid = next((k for k in want_t if got_t.get(k) != want_t[k]), None)
+                violation("time-zone", f"timestamps written ...{sfx_!r} are read differently when the process runs with TZ={tz_}: "
+                          + (f"bundle {bid}: read {got_t.get(bid, ('?', '?'))[0]} / {got_t.get(bid, ('?', '?'))[1]}, document states {want_t[bid][0]} / {want_t[bid][1]}" if bid else
+                             f"header timestamp read {rz[1].timestamp}, document states {req.get('timestamp')}"), zdoc)
     # base64 content broken into lines (xsd:base64Binary allows it; mail and PEM tools do it): same octets, same verdict
     if i % 3 == 0:
         doc = ksrxml.render_tree(tree, R, wrap=True)
